@@ -53,10 +53,21 @@ var specs = []Spec{
 	{"x/tradeshield/keeper", "msgServer.UpdatePerpetualOrder", "updatePerpGuards", false, true, ""},
 	{"x/oracle/keeper", "msgServer.FeedPrice", "feedPriceGuards", false, true, ""},
 	{"x/amm/keeper", "Keeper.ExitPool", "exitPoolGuards", false, true, ""},
+	{"x/perpetual/keeper", "Keeper.ProcessOpen", "perpOpenHealthGuards", false, true, "stopLossPrice :="},
+	{"x/perpetual/keeper", "Keeper.OpenConsolidate", "perpConsolidateHealthGuards", false, true, "stopLossPrice :="},
+	{"x/leveragelp/keeper", "Keeper.ProcessOpenLong", "lpOpenHealthGuards", false, true, "position.LeveragedLpAmount ="},
 	{"x/perpetual/types", "CalcFundingRate", "calcFundingRate", false, false, ""},
 	{"x/stablestake/types", "Debt.GetTotalLiablities", "debtTotalLiabilities", false, false, ""},
 	{"x/amm/keeper", "Keeper.InternalSwapExactAmountIn", "swapExactInGuards", false, true, ""},
 	{"x/amm/keeper", "Keeper.InternalSwapExactAmountOut", "swapExactOutGuards", false, true, ""},
+}
+
+// windowFrom (prefix mode): the translation starts at the first top-level statement whose source text contains this string instead of at
+// the top of the function (Lean name -> text). With `Until` this cuts a window out of a function whose head and tail are effects.
+var windowFrom = map[string]string{
+	"perpOpenHealthGuards":        "k.GetMTPHealth(",
+	"perpConsolidateHealthGuards": "k.GetMTPHealth(",
+	"lpOpenHealthGuards":          "k.GetPositionHealth(",
 }
 
 // externs: callees that are loops; their hand-written Lean definitions are tied to the code by the differential harness only
